@@ -148,6 +148,9 @@ theorem step_link (s : Sys F) (ev : Ev) (hnd : (ids s.links).Nodup) (hnr : ev.is
   | failNext cid =>
     refine ⟨rfl, fun i l hl => ⟨l, hl, LinkFx.refl _ l, ?_, fun _ => Or.inl rfl⟩⟩
     unfold ProbeFx; rw [if_neg (by simp [consulted])]; exact Or.inl rfl
+  | failAfter cid kfa =>
+    refine ⟨rfl, fun i l hl => ⟨l, hl, LinkFx.refl _ l, ?_, fun _ => Or.inl rfl⟩⟩
+    unfold ProbeFx; rw [if_neg (by simp [consulted])]; exact Or.inl rfl
   | failBind cid =>
     refine ⟨rfl, fun i l hl => ⟨l, hl, LinkFx.refl _ l, ?_, fun _ => Or.inl rfl⟩⟩
     unfold ProbeFx; rw [if_neg (by simp [consulted])]; exact Or.inl rfl
